@@ -160,6 +160,23 @@ def _from_edges_args(base: Term):
     return tuple(vals)
 
 
+def _same_graph_parts(fe) -> Term | None:
+    n0, d0, u0 = fe
+
+    def owner(t, comp, what):
+        while t is not None and t[0] == "call" and t[1] in ("list", "tuple", "set", "iter") and len(t[2]) == 1 and not t[3]:
+            t = t[2][0]
+        if t is None or t[0] != "meth" or t[2] != what or t[3] or t[4]:
+            return None
+        o = t[1]
+        if comp is None:
+            return o[1] if (o[0] == "attr" and o[2] == "directed") else o
+        return o[1] if (o[0] == "attr" and o[2] == comp) else None
+
+    g1, g2, g3 = owner(n0, None, "nodes"), owner(d0, "directed", "edges"), owner(u0, "undirected", "edges")
+    return g1 if (g1 is not None and g1 == g2 == g3) else None
+
+
 def denote(t: Term) -> Term | None:
     """The denotation of a graph-effect chain, or None when `t` is not one (or uses an effect this module does not model)."""
     if not (is_term(t) and t[0] in ("accum", "mut")):
@@ -270,5 +287,15 @@ def post(v: Any) -> Any:
             return (d[0],) + tuple(post(x) for x in d[1:])
         w = (v[0],) + tuple(post(x) for x in v[1:])
         ind = induced(w)
-        return ind if ind is not None else w
+        if ind is not None:
+            return ind
+        fe = _from_edges_args(w)
+        if fe is not None and (fe[1] is not None or fe[2] is not None):
+            g0 = _same_graph_parts(fe)
+            if g0 is not None:
+                return g0  # from_edges(g.nodes(), g.directed.edges(), g.undirected.edges()) is (a copy of) g
+            d = denote(("mut", w, (("call", "add_nodes_from", (("listlit", ()),), ()),)))
+            if d is not None:
+                return (d[0],) + tuple(post(x) for x in d[1:])
+        return w
     return tuple(post(x) for x in v)
